@@ -1064,7 +1064,7 @@ func gen(g *hx.Gen) {
 		}
 	}
 	g.StatN("choose.boundary", 15*15*15)
-	nr := g.Count(3000, 200000)
+	nr := g.Count(3000, 60000)
 	for i := 0; i < nr; i++ {
 		v := func() uint32 {
 			switch r.Intn(3) {
